@@ -197,3 +197,50 @@ func (*PNE) isA() {}
 func init() {
 	ProviderKinds = append(ProviderKinds, ProviderKind{Name: "PNE", HasQual: true, New: func(b *Beh) any { c := &PNE{QCore: QCore{PCore{b}}}; b.Self = c; return c }})
 }
+
+// PLP: a provider (IA, IAB) that is also a pass-through component post-processor AND LazyInit: three roles at once.
+type PLP struct{ QCore }
+
+func (*PLP) isA()      {}
+func (*PLP) isAB()     {}
+func (*PLP) LazyInit() {}
+func (*PLP) PostProcessBeforeInitialization(c any, n string) (any, error) { return c, nil }
+func (*PLP) PostProcessAfterInitialization(c any, n string) (any, error)  { return c, nil }
+
+// Zero-size providers WITH selection attributes: PZQ carries the qualifier g1, PZR carries g1 and is Primary.
+type PZQ struct{}
+type PZR struct{}
+
+func (*PZQ) isZst()            {}
+func (*PZR) isZst()            {}
+func (*PZQ) Qualifier() string { return "g1" }
+func (*PZR) Qualifier() string { return "g1" }
+func (*PZR) Primary()          {}
+
+// ExtraProviderKinds are appended by the pop package after the alt-package kinds (indices 19, 20, 21).
+var ExtraProviderKinds = []ProviderKind{
+	{Name: "PLP", HasQual: true, New: func(b *Beh) any { c := &PLP{QCore{PCore{b}}}; b.Self = c; return c }},
+	{Name: "PZQ", NoName: true, HasQual: true, New: func(b *Beh) any { return &PZQ{} }},
+	{Name: "PZR", NoName: true, HasQual: true, New: func(b *Beh) any { return &PZR{} }},
+}
+
+// PNM: two by-name points with the SAME Go field name, one in each of two embedded mix-ins (and a third, shadowing
+// one, on the component itself).
+type MixA struct {
+	Dep IA `wire:"n1,required=false"`
+}
+type MixB struct {
+	Dep IA `wire:"n2,required=false"`
+}
+type PNM struct {
+	QCore
+	MixA
+	MixB
+	Dep any `wire:"n3,required=false"`
+}
+
+func (*PNM) isA() {}
+
+func init() {
+	ExtraProviderKinds = append(ExtraProviderKinds, ProviderKind{Name: "PNM", HasQual: true, New: func(b *Beh) any { c := &PNM{QCore: QCore{PCore{b}}}; b.Self = c; return c }}) // 22
+}
